@@ -144,3 +144,118 @@ def origin_local(b, defs, l, depth=10):
             return cur
         cur = nxt
     return cur
+
+
+def closures_of(prog, b):
+    """closures that belong to body b: defined under it, or constructed in its blocks (a helper that has been inlined into b
+    brings its closures along), transitively"""
+    out = {c.id: c for c in prog.bodies.values() if c.kind == "Closure" and c.root == b.id}
+    work = [b] + list(out.values())
+    seen = set()
+    while work:
+        x = work.pop()
+        if x.id in seen:
+            continue
+        seen.add(x.id)
+        for bl in x.blocks:
+            for s in bl["stmts"]:
+                if s["s"] == "assign" and s["rv"]["k"] == "agg" and s["rv"].get("ak") in ("closure", "coroutine"):
+                    c = prog.bodies.get(s["rv"].get("def"))
+                    if c is not None and c.id not in out:
+                        out[c.id] = c
+                        work.append(c)
+                        # closures nested inside it
+                        for c2 in prog.bodies.values():
+                            if c2.kind == "Closure" and c2.id.startswith(c.id + "::") and c2.id not in out:
+                                out[c2.id] = c2
+                                work.append(c2)
+    return sorted(out.values(), key=lambda c: c.id)
+
+
+def _proj_path(p):
+    """projection list -> comparable path ('d' derefs dropped)"""
+    out = []
+    for e in p:
+        if e == "d":
+            continue
+        if isinstance(e, dict) and "f" in e:
+            out.append(("f", e["f"]))
+        elif isinstance(e, dict) and "dc" in e:
+            out.append(("v", e.get("n") if e.get("n") is not None else e["dc"]))
+        else:
+            out.append(("?", repr(e)))
+    return tuple(out)
+
+
+def flow_forward(b, start_local, max_iter=12, start_path=()):
+    """field-sensitive, flow-insensitive forward reach of the value first held by `start_local`:
+    returns the set of (local, path) locations that (may) hold exactly that value after moves / copies, struct / tuple / enum
+    aggregates that wrap it, reads of the wrapping field, and Try::branch (Ok / Some payload -> Continue payload)."""
+    tracked = {(start_local, tuple(start_path))}
+    for _ in range(max_iter):
+        new = set()
+        for bl in b.blocks:
+            if bl["cleanup"]:
+                continue
+            for s in bl["stmts"]:
+                if s["s"] != "assign":
+                    continue
+                rv = s["rv"]
+                dl, dp = s["pl"]["l"], _proj_path(s["pl"]["p"])
+                if rv["k"] in ("use", "cast") and rv["op"].get("o") in ("copy", "move"):
+                    sl, sp = rv["op"]["pl"]["l"], _proj_path(rv["op"]["pl"]["p"])
+                    for (tl, tp) in tracked:
+                        if tl != sl:
+                            continue
+                        if tp[:len(sp)] == sp:                    # reading a prefix of / exactly the tracked location
+                            new.add((dl, dp + tp[len(sp):]))
+                elif rv["k"] == "agg" and rv.get("ak") in ("adt", "tuple"):
+                    for k, op in enumerate(rv["ops"]):
+                        if op.get("o") not in ("copy", "move"):
+                            continue
+                        sl, sp = op["pl"]["l"], _proj_path(op["pl"]["p"])
+                        for (tl, tp) in tracked:
+                            if tl == sl and tp[:len(sp)] == sp:
+                                pre = ()
+                                if rv.get("ak") == "adt" and rv.get("vn") and rv.get("adt", "").split("::")[-1] in ("Result", "Option", "ControlFlow"):
+                                    pre = (("v", rv["vn"]),)
+                                new.add((dl, dp + pre + (("f", k),) + tp[len(sp):]))
+            t = bl["term"]
+            if t["t"] == "call" and t.get("callee") and t["callee"]["def"].endswith("::Try>::branch") and t["args"] and \
+                    t["args"][0].get("o") in ("copy", "move"):
+                sl, sp = t["args"][0]["pl"]["l"], _proj_path(t["args"][0]["pl"]["p"])
+                dl, dp = t["dest"]["l"], _proj_path(t["dest"]["p"])
+                for (tl, tp) in tracked:
+                    if tl == sl and tp[:len(sp)] == sp:
+                        rest = tp[len(sp):]
+                        if rest and rest[0] in (("v", "Ok"), ("v", "Some")):
+                            new.add((dl, dp + (("v", "Continue"),) + rest[1:]))
+        if new <= tracked:
+            break
+        tracked |= new
+    return tracked
+
+
+def canon_base(b, defs, pl, depth=8):
+    """the local a place ultimately designates when it is (a chain of) `*r` with r = &x / &mut x / a copy of such a reference;
+    None when the place has other projections"""
+    cur = pl
+    for _ in range(depth):
+        proj = [p for p in cur["p"]]
+        if not proj:
+            return cur["l"]
+        if proj != ["d"]:
+            return None
+        d = single_def(defs, cur["l"])
+        if d is None or d[1] == "term":
+            return None
+        rv = d[2]
+        if rv.get("k") == "ref":
+            cur = rv["pl"]
+        elif rv.get("k") in ("use", "cast") and rv["op"].get("o") in ("copy", "move"):
+            cur = {"l": rv["op"]["pl"]["l"], "p": rv["op"]["pl"]["p"] + ["d"]} if not rv["op"]["pl"]["p"] else None
+            if cur is None:
+                return None
+        else:
+            return None
+    return None
